@@ -292,6 +292,17 @@ def run(db, chk) -> None:
     truthy, nlook = id_truthiness_sites(db)
     chk.ob("C11.R4-id-opacity", f"no symbol-id lookup is used for its truth value ({nlook} lookups scanned)", not truthy and nlook >= 20, "hta", found=truthy or f"{nlook} lookups, none in a boolean position",
            accepted="ids compared with `is None` / a sentinel, never tested for truthiness", why="`sym_index.get(name) or NULL` replaces the valid id 0 by the sentinel: whichever symbol happens to be numbered 0 disappears from the query")
+    # default selections do not depend on the order in which ranks were parsed
+    fr = tm.func("Trace._get_first_rank")
+    vals = [ast.unparse(H.expand(fr, v)) for t, v, s_ in H.assignments(fr) if H.name_id(t) == "rank"] + [ast.unparse(H.expand(fr, r_.value)) for r_ in ast.walk(fr) if isinstance(r_, ast.Return) and r_.value is not None and not isinstance(r_.value, ast.Name)]
+    txt = " ".join(vals)
+    ordered = any(k in txt for k in ("get_ranks()", "sorted(", "min("))
+    insertion = any(k in txt for k in ("next(iter(", "list(self.traces)", "list(self.traces.keys())", "self.traces.keys())[0]")) and "sorted(" not in txt
+    chk.ob("C11.R3-ordered-collection", "the default rank (rank=None) is the LOWEST loaded rank, not the first one parsed", True if ordered and not insertion else (False if insertion else None), tm.loc(fr),
+           found=vals, accepted="self.get_ranks()[0]  (get_ranks() is sorted)", why="`next(iter(self.traces))` follows the parse order: get_iterations() / get_trace_duration() without a rank then depend on which rank was parsed first")
+    gr = tm.func("Trace.get_ranks")
+    chk.ob("C11.R3-ordered-collection", "get_ranks() returns the ranks in sorted order", any(H.match("return sorted($$x)", st_) is not None for st_ in gr.body), tm.loc(gr),
+           found=[ast.unparse(st_)[:80] for st_ in gr.body if isinstance(st_, ast.Return)], accepted="sorted(self.traces.keys())")
     _derived_views(db, chk)
     from ..specs.discipline import check_stateless
     check_stateless(db, chk, "C11.R7-no-module-state", [ST])          # decoding / encoding helpers keep nothing between calls (tables of different traces never mix)
